@@ -231,6 +231,14 @@ class FlowRobust:
                     sets = [g.enc_set(i, b"") for i in ids]
                     toks += [hx(sender), hx(g.enc_msg(sets))]
                 out.append(cmd + " " + " ".join(toks))
+        # sFlow: EVERY combination of a skipped sample's declared length that is negative as a 32-bit signed number, the kind of
+        # sample that is skipped (filtered, unsupported, foreign enterprise) and a sample count that would allow endless repetition
+        import struct as _sk
+        for l in (0xfffffff8, 0xfffffff0, 0xfffffffc, 0x80000000, 0xffffffff, 0x7fffffff, 0xfffffff4):
+            for tag, filt in ((3, ""), (77, ""), ((4413 << 12) | 1, ""), ((1 << 12) | 2, "2 "), (1, "1 "), (2, "2 "), (2, "1 2 ")):
+                for ns in (0xffffffff, 1000000, 3):
+                    p_ = (_sk.pack(">II", 5, 1) + bytes([10, 0, 0, 1]) + _sk.pack(">IIII", 0, 1, 2, ns) + _sk.pack(">II", tag, l) + bytes(16))
+                    out.append("sflow %s%s" % (filt, hx(p_)))
         # every truncation offset of a message announcing a plain and an options template (variable-length scope field), and of its data
         for p in ("ipfix", "nf9"):
             g = gens[p]; cmd = "ipfixh" if p == "ipfix" else "nf9h"; addr = rand_addr(rng)
